@@ -93,7 +93,7 @@ func (p *Parent) RunWorker(race bool, phase, shard, nshards, from int, skip []in
 	cmd.Env = append(os.Environ(), "VERIF_SEED="+strconv.FormatUint(p.Seed, 10), "VERIF_TIER="+p.Tier)
 	if race {
 		logp := out + ".race"
-		cmd.Env = append(cmd.Env, "GORACE=halt_on_error=0 history_size=3 log_path="+logp, "VERIF_RACELOG="+logp)
+		cmd.Env = append(cmd.Env, "GORACE=halt_on_error=0 exitcode=0 history_size=3 log_path="+logp, "VERIF_RACELOG="+logp)
 	}
 	cmd.Env = append(cmd.Env, extraEnv...)
 	errf, _ := os.Create(out + ".stderr")
@@ -326,6 +326,7 @@ func (p *Parent) collectRaces(out string, phase int) {
 		blocks := strings.Split(string(b), "WARNING: DATA RACE")
 		for _, blk := range blocks[1:] {
 			first := func(part string) string {
+				fallback := "-"
 				for _, line := range strings.Split(part, "\n") {
 					t := strings.TrimSpace(line)
 					if strings.HasPrefix(t, "github.com/gregoryv/mq.") {
@@ -335,8 +336,20 @@ func (p *Parent) collectRaces(out string, phase int) {
 						}
 						return fn
 					}
+					// no library frame (inlined accessor): name the first
+					// non-runtime function of the stack instead
+					if fallback == "-" && strings.HasSuffix(t, ")") && !strings.HasPrefix(t, "runtime.") && !strings.Contains(t, " by goroutine") && !strings.HasPrefix(t, "/") {
+						fn := t
+						if j := strings.LastIndexByte(fn, '('); j > 0 {
+							fn = fn[:j]
+						}
+						if k := strings.LastIndexByte(fn, '/'); k >= 0 {
+							fn = fn[k+1:]
+						}
+						fallback = fn
+					}
 				}
-				return "-"
+				return fallback
 			}
 			parts := strings.SplitN(blk, "Previous ", 2)
 			pair := []string{first(parts[0]), "-"}
@@ -627,4 +640,19 @@ func ReplayMain(find func(id string) Check, path string) int {
 	}
 	fmt.Println("replay: the recorded violation did not show again")
 	return 0
+}
+
+// AddViolation lets a Finalizer report a violation found on the parent side.
+func (p *Parent) AddViolation(v Violation) {
+	p.mu.Lock()
+	p.merged.Violations = append(p.merged.Violations, v)
+	p.merged.ViolCount++
+	p.mu.Unlock()
+}
+
+// AddTable lets a Finalizer add a counter to the evidence tables.
+func (p *Parent) AddTable(key string, n int64) {
+	p.mu.Lock()
+	p.merged.Tables[key] += n
+	p.mu.Unlock()
 }
